@@ -107,6 +107,7 @@ type storeFault struct {
 	failCreate  bool
 	failInsertN int // fail the n-th insert (1-based); 0 = never
 	inserts     int
+	failUpdate  bool // the live store refuses the next swap before anything is moved
 	// monitor of the live store: lookups inside it, and a gate that keeps them inside
 	inside    int
 	holdReads chan struct{} // non-nil: lookups wait inside the store until it is closed
@@ -202,6 +203,11 @@ type liveUnwrap struct {
 
 func (l *liveUnwrap) Update(n crlstore.CRLStore) error {
 	l.f.mu.Lock()
+	if l.f.failUpdate {
+		l.f.failUpdate = false
+		l.f.mu.Unlock()
+		return fmt.Errorf("verif: injected swap error (nothing was moved)")
+	}
 	l.f.swapping = true
 	if l.f.inside > 0 {
 		l.f.overlaps = append(l.f.overlaps, fmt.Sprintf("swap began with %d lookups inside the store", l.f.inside))
